@@ -232,7 +232,7 @@ def run (k : Nat) (H : History) : List Ev := runFrom step (init k) H
 
 end zip
 
-/-! ### operators layered over zip: an outer controller with ONE observer (serial 0) subscribed to the
+/-! ### operators layered over zip (sequence_equal; combine_latest was one too before the repair of F9): an outer controller with ONE observer (serial 0) subscribed to the
 zip Observable.  That observer IS zip's subscriber: when the outer controller unsubscribes it (finalize /
 upstream_abort_observe), `set_on_unsubscribe` (stream_controller.rs:32-35) finalizes zip's controller.
 The zip step is run first and its (at most one) output events are then fed to the outer closures; events
@@ -249,25 +249,38 @@ def Over.init (k : Nat) : Over := { z := zip.init k, o := Ctl.init 1 }
 def Over.sync (z : zip.State) (o : Ctl) : Over :=
   { z := if o.isLive 0 then z else { z with ctl := z.ctl.finalize }, o := o }
 
-namespace combineLatestCode
+/-! ### combine_latest (src/operators/combine_latest.rs after the F9 repair): ONE StreamController, one inner observer
+per source (serial = source index, as in zip), and a cell `latest` with one slot per source.  `next` of source `i`
+stores the item in slot `i`; if every slot is filled the vector of the latest items is built (both under the write
+guard of the cell), the guard is released and `sink_next(combine_f(vector))` is called.  `error` ⇒ `sink_error`;
+`complete` of source `i` ⇒ `sink_complete(serial)`: the output completes when all sources have completed; a source
+that has completed keeps its latest value. -/
+namespace combineLatest
 
-/-- outer closures of src/operators/combine_latest.rs:46-56; `f` = `combine_f` -/
-def feed (f : List Data → Data) : Ctl → List Ev → Ctl × List Ev
-  | o, [] => (o, [])
-  | o, ev :: evs =>
-    if o.isLive 0 then
-      match ev with
-      | .next v => ((feed f (o.sinkNext (f v.toList)).1 evs).1, (o.sinkNext (f v.toList)).2 ++ (feed f (o.sinkNext (f v.toList)).1 evs).2)
-      | .error e => ((feed f ((o.kill 0).sinkError e).1 evs).1, ((o.kill 0).sinkError e).2 ++ (feed f ((o.kill 0).sinkError e).1 evs).2)
-      | .complete => ((feed f ((o.kill 0).sinkComplete 0).1 evs).1, ((o.kill 0).sinkComplete 0).2 ++ (feed f ((o.kill 0).sinkComplete 0).1 evs).2)
-    else feed f o evs
+structure State where
+  ctl : Ctl
+  latest : List (Option Data)
+deriving Repr, DecidableEq, Inhabited
 
-def step (f : List Data → Data) (s : Over) (p : Nat × Ev) : Over × List Ev :=
-  (Over.sync (zip.step s.z p).1 (feed f s.o (zip.step s.z p).2).1, (feed f s.o (zip.step s.z p).2).2)
+def step (f : List Data → Data) (s : State) (p : Nat × Ev) : State × List Ev :=
+  if s.ctl.isLive p.1 then
+    match p.2 with
+    | .next d =>
+      if (s.latest.set p.1 (some d)).all Option.isSome then
+        ({ ctl := (s.ctl.sinkNext (f ((s.latest.set p.1 (some d)).map fun x => x.getD .unit))).1,
+           latest := s.latest.set p.1 (some d) },
+         (s.ctl.sinkNext (f ((s.latest.set p.1 (some d)).map fun x => x.getD .unit))).2)
+      else ({ s with latest := s.latest.set p.1 (some d) }, [])
+    | .error e => ({ s with ctl := ((s.ctl.kill p.1).sinkError e).1 }, ((s.ctl.kill p.1).sinkError e).2)
+    | .complete =>
+      ({ s with ctl := ((s.ctl.kill p.1).sinkComplete p.1).1 }, ((s.ctl.kill p.1).sinkComplete p.1).2)
+  else (s, [])
+
+def init (k : Nat) : State := { ctl := Ctl.init k, latest := List.replicate k none }
 
 /-- `combine_f` defaults to "collect into a list" so that code and spec outputs are comparable -/
 def run (k : Nat) (H : History) (f : List Data → Data := Data.ofList) : List Ev :=
-  runFrom (step f) (Over.init k) H
+  runFrom (step f) (init k) H
 
 /-- `combine_f` = left fold of a binary function over the tuple (the form used by the case language:
     `(combine_latest <fn2> p ps…)`, `oCombineLatest` in Machine/Lib.lean) -/
@@ -278,7 +291,7 @@ def foldFn2 (f : Fn2) (l : List Data) : Data :=
 
 def runFn2 (f : Fn2) (k : Nat) (H : History) : List Ev := run k H (foldFn2 f)
 
-end combineLatestCode
+end combineLatest
 
 namespace sequenceEqualCode
 
@@ -545,7 +558,7 @@ def runOp (name : String) (k : Nat) (H : History) : List Ev :=
   if name == "merge" then merge.run k H
   else if name == "concat" then concat.run k H
   else if name == "zip" then zip.run k H
-  else if name == "combine_latest" then combineLatestCode.run k H
+  else if name == "combine_latest" then combineLatest.run k H
   else if name == "amb" then amb.run k H
   else if name == "take_until" then takeUntil.run k H
   else if name == "skip_until" then skipUntil.run k H
